@@ -488,7 +488,9 @@ static void child_loop(
         fprintf(out, "S %ld %016llx\n", i, (unsigned long long)seed);
         fflush(out);
         Plan plan = generate(prop, seed, tier);
+        alarm(40); // a run that hangs (a cyclic catalog...) is a crash
         RunResult r = run_plan(plan, o);
+        alarm(0);
         total.add(r.st);
         bool fresh_sig = sigs.insert(r.signature).second;
         if (fresh_sig && r.nontrivial)
@@ -534,6 +536,15 @@ static void child_loop(
             fclose(out);
             _exit(3);
         }
+        if (r.poisoned) {
+            // another property's oracle found the process state corrupt:
+            // start the next run in a fresh process
+            flush_stats(i + 1);
+            fprintf(out, "K %ld\n", i);
+            fflush(out);
+            fclose(out);
+            _exit(4);
+        }
         if ((i - from) % 256 == 255)
             flush_stats(i + 1);
     }
@@ -578,7 +589,7 @@ static int cmd_run(
         long started = -1, finished = -1, failed_at = -1;
         Stats child_stats;
         long child_nontrivial = 0;
-        bool done = false;
+        bool done = false, restart = false;
         while (fgets(line, sizeof line, in)) {
             if (line[0] == 'S') {
                 started = atol(line + 2);
@@ -658,6 +669,8 @@ static int cmd_run(
                 }
             } else if (line[0] == 'D') {
                 done = true;
+            } else if (line[0] == 'K') {
+                restart = true;
             }
         }
         fclose(in);
@@ -666,6 +679,10 @@ static int cmd_run(
         total.add(child_stats);
         nontrivial += child_nontrivial;
         long bad = -1;
+        if (restart && failed_at < 0) {
+            i = finished + 1;
+            continue;
+        }
         if (failed_at >= 0)
             bad = failed_at;
         else if (!done && !(WIFEXITED(st) && WEXITSTATUS(st) == 0) &&
